@@ -283,6 +283,7 @@ myth_tls_key_allocator_alloc(myth_tls_key_allocator_t * s,
 	ke->next = (myth_tls_key_entry_t *)-1;
 	ke->destructor = destructor;
 	myth_spin_unlock_body(&s->lock);
+	MYTH_VERIF_POINT(KEY_ALLOC_AFTER_UNLOCK);
 	return ke - s->keys;
       }
     } else {
@@ -313,6 +314,7 @@ myth_tls_key_allocator_dealloc(myth_tls_key_allocator_t * s, int key) {
     MYTH_VERIF_POINT(KEY_DEALLOC_BEFORE_CAS);
     if (__sync_bool_compare_and_swap(&s->free, head, ke)) {
       myth_spin_unlock_body(&s->lock);
+      MYTH_VERIF_POINT(KEY_DEALLOC_AFTER_UNLOCK);
       return f;
     }
   }
